@@ -66,10 +66,12 @@ const (
 	OClose
 	OReopen
 	OBeginRO // read-only transaction scanning everything
+	OMark    // marker in the trace (twin runs)
+	OProbe   // capacity probe (bounded files)
 	numOpKinds
 )
 
-var opNames = [...]string{"begin", "alloc", "write", "read", "free", "flushpage", "flushtx", "checkpoint", "setroot", "commit", "rollback", "close", "reopen", "beginro"}
+var opNames = [...]string{"begin", "alloc", "write", "read", "free", "flushpage", "flushtx", "checkpoint", "setroot", "commit", "rollback", "close", "reopen", "beginro", "mark", "probe"}
 
 func (k OpKind) String() string { return opNames[k] }
 
@@ -202,7 +204,9 @@ type World struct {
 
 	Commits, Aborts, Reopens, Writes, Allocs, Frees, OOMs int
 	failed                                                bool
-	lastErr                                               error // error behind the most recent operation-level violation
+	lenSeed                                               uint64 // derives default lengths of partial writes (set per op, equal in twin runs)
+	KeepTrace                                             bool   // keep the complete trace in memory
+	lastErr                                               error  // error behind the most recent operation-level violation
 	LastTxid                                              uint64
 	OpenOpts                                              func(o *txfile.Options) // tweak options on (re)open
 }
@@ -223,7 +227,7 @@ func (w *World) Failed() bool { return w.failed }
 func (w *World) tracef(format string, args ...interface{}) {
 	s := fmt.Sprintf(format, args...)
 	w.traceHash = w.traceHash*1099511628211 ^ core.Hash64([]byte(s))
-	if w.TraceOn || len(w.Trace) < 400 {
+	if w.TraceOn || w.KeepTrace || len(w.Trace) < 400 {
 		w.Trace = append(w.Trace, s)
 	}
 	if w.TraceOn {
@@ -636,7 +640,7 @@ func (w *World) Write(id txfile.PageID, mode int, length int) bool {
 		}
 	case 1:
 		if length <= 0 || length >= ps {
-			length = 1 + int(ver*7919)%(ps-1)
+			length = 1 + int((w.lenSeed+uint64(id))*7919%uint64(ps-1))
 		}
 		buf := Stamp(id, ver, ps)[:length]
 		if w.guard("SetBytes", func() { err = tp.page.SetBytes(buf) }) {
@@ -678,9 +682,9 @@ func (w *World) Write(id txfile.PageID, mode int, length int) bool {
 			}
 			if mode == 2 {
 				if length <= 0 || length > ps {
-					length = 1 + int(ver*104729)%ps
+					length = 1 + int((w.lenSeed+uint64(id))*104729%uint64(ps))
 				}
-				off := int(ver*31) % (ps - length + 1)
+				off := int((w.lenSeed+uint64(id))*31) % (ps - length + 1)
 				patch := Stamp(id, ver, length+8)[8:]
 				copy(b[off:], patch[:length])
 				copy(tp.content.Data[off:], patch[:length])
